@@ -20,6 +20,8 @@ ASSUMPTIONS = [
 FAMILIES = ["f_chain", "f_subplan", "f_glob", "f_amend", "f_env", "f_vol", "f_redefine",
             "f_optional", "f_hold", "f_dynout", "f_nested", "f_cutoff"]
 CFG = {"njob": 2}
+# families whose default-schedule result the real tool need not reproduce (none at the moment)
+SCHEDULE_DEPENDENT_FAMILIES = ()
 
 
 def starts(fam, tier):
@@ -39,6 +41,10 @@ def jobs(tier, seed):
             out.append({"start": start, "first": None, "depth": 0})
             for elabel, d in hist.all_edits(start):
                 out.append({"start": start, "first": (elabel, d), "depth": depth})
+    # conformance replays of the history engine against the real command line tool
+    for fam in FAMILIES:
+        if fam not in SCHEDULE_DEPENDENT_FAMILIES:
+            out.append({"conform": True, "fam": fam})
     return out
 
 
@@ -125,7 +131,40 @@ def compare(last, scratch, adopted=None):
     return out
 
 
+def run_conform(spec):
+    """Two-build histories (start, one edit) of a family: the closed system on its default
+    schedule against the real `stepup build -j1` (real director, real restart path), whole
+    databases and file trees compared after each build."""
+    from .. import conform
+
+    acc = Acc()
+    fam = spec["fam"]
+    start = {"fam": fam, "knobs": {}}
+    base = hist.desc_files(start)
+    done = []
+    for elabel, d in hist.all_edits(start):
+        new = hist.desc_files(d)
+        delta = {p: c for p, c in new.items() if base.get(p) != c}
+        delta.update({p: None for p in base if p not in new and not p.endswith("/")})
+        env1 = dict(start.get("env", {}))
+        env2 = dict(d.get("env", {}))
+        diffs, n = conform.compare([base, delta], {"njob": 1}, environs=[env1 or None, env2 or None], tag="c1cf")
+        acc.count("conformance_builds", n)
+        acc.validated += n
+        acc.evaluations += n
+        done.append({"edit": elabel, "differences": len(diffs)})
+        if diffs:
+            acc.violation(f"C01|conformance|{fam}|{elabel}",
+                          {"why": "the closed system and the real `stepup build` disagree after an edit",
+                           "family": fam, "edit": elabel, "diffs": diffs[:6]}, None)
+    acc.extra["conformance"] = [{"family": fam, "histories": len(done),
+                                 "differing": sum(1 for x in done if x["differences"])}]
+    return acc
+
+
 def run_job(spec):
+    if spec.get("conform"):
+        return run_conform(spec)
     acc = Acc()
     fam = spec["start"]["fam"]
 
@@ -173,7 +212,8 @@ def run_job(spec):
 
 
 def coverage_extra(total, tier):
-    return {"edit_depth": 2 if tier == "quick" else 3, "families": FAMILIES}
+    return {"edit_depth": 2 if tier == "quick" else 3, "families": FAMILIES,
+            "conformance": sorted(total.extra.get("conformance", []), key=lambda d: d["family"])}
 
 
 def replay(doc):
